@@ -36,6 +36,13 @@ EXHAUSTIVE = {
     "thorough": "nibble strings <= 5 x terminator; bit strings <= 18; all 1- and 2-byte strings; "
                 "type byte 0..255 x lengths {0,1,2,32,33,34,64,65,66,97}",
 }
+# thorough tier: the repository's own tests replayed under these run-time contracts
+REPO_TESTS = {"files": ["tests/core/test_nibbles_utils.py", "tests/core/test_binaries_utils.py",
+                        "tests/core/test_nodes_utils.py", "tests/core/test_bin_trie.py",
+                        "tests/core/test_hexary_trie.py", "tests/core/test_typing.py"],
+              "contracts": ["encode_nibbles", "decode_nibbles", "bytes_to_nibbles", "nibbles_to_bytes",
+                            "encode_to_bin", "decode_from_bin", "encode_from_bin_keypath", "encode_kv_node",
+                            "encode_branch_node", "encode_leaf_node"]}
 FLOORS = {
     "quick": {"hp": 10000, "keypath": 800, "nib": 6000, "bin": 6000, "binnode_bad": 200,
               "binnode_ok": 100, "hexnode_nodes": 200},
